@@ -642,26 +642,26 @@ def _metrics(rng, L, step, mode, lo=-48):
     return vals
 
 
-def _rate_setup(rng):
+def _rate_setup(rng, between=False):
     """(regime, default rate, factor, log10 rate, log10 epsilon, first rate): extremes of the numeric options; epsilon
     strictly between the reduced rate and the size of the reduction (a test on the wrong quantity shows), exactly equal
     to the reduction (strict test), larger than every rate, zero"""
-    if rng.random() < 0.2:  # decimal factors close to the ends of (0, 1)
+    if rng.random() < 0.2 and not between:  # decimal factors close to the ends of (0, 1)
         dflt, fac = rng.choice([(1.0, 0.999), (2.0, 0.001), (0.3, 0.99), (0.5, 0.9), (0.01, 0.1), (1.0, 0.7)])
         return "D", dflt, fac, None, rng.choice([-8, -8, -4, -300, -400]), dflt
-    fac = rng.choice([0.5, 0.5, 0.25, 0.25, 0.125, 0.75, 0.625])
+    fac = rng.choice([0.25, 0.125, 0.75, 0.625] if between else [0.5, 0.5, 0.25, 0.25, 0.125, 0.75, 0.625])
     pow2 = fac in (0.5, 0.25, 0.125)
     l10lr = rng.choice([None, None, 0, 0, 1, -2, -0.5, -30]) if pow2 else None
     dflt = rng.choice([1.0, 1.0, 2.0, 0.5, 2.0 ** -40, 2.0 ** 40, 1e-30, 1e30, 0.0123456789, 1e-9, 3.0, 1000.0])
     if not pow2:
         dflt = rng.choice([1.0, 3.0, 64.0, 2.0 ** -20])
-    k = rng.choice(["std", "std", "between", "between", "equal", "huge", "zero", "tiny"])
+    k = "between" if between else rng.choice(["std", "std", "between", "between", "equal", "huge", "zero", "tiny"])
     if k == "between" and fac != 0.5:
         g = math.sqrt(fac * (1 - fac))
         if (dflt if l10lr is None else 10 ** l10lr) * g >= 1:
             dflt, l10lr = rng.choice([1.0, 0.5, 2.0 ** -20]), None
         lr = dflt if l10lr is None else 10 ** l10lr
-        l10eps = math.log10(lr * fac ** rng.choice([0, 1, 2]) * g)
+        l10eps = math.log10(lr * fac ** rng.choice([0, 0, 1] if between else [0, 1, 2]) * g)
     elif k == "equal":
         # old - new == epsilon needs a power of ten: rate 2 (or 4) with factor .5 and epsilon 10**0
         l10eps, l10lr, dflt, fac = 0, None, rng.choice([2.0, 4.0, 1.0]), 0.5
@@ -714,8 +714,9 @@ def boundary_case(rng, kind):
         P = dict(es_thr=rng.choice([0, 4]), es_pat=rng.choice([1, 2, 3]), es_burn=rng.choice([0, 1]),
                  rlr_thr=rng.choice([0, 4, 8]), rlr_pat=rng.choice([1, 2]), rlr_cool=rng.choice([0, 1]),
                  rlr_burn=rng.choice([0, 1]), num=rng.choice([None, None, L, 10]))
-    regime, dflt, fac, l10lr, l10eps, start = _rate_setup(rng)
-    if kind == "cooldown" and rng.random() < 0.6:  # make sure the reductions are not negligible
+    between = kind == "cooldown" and rng.random() < 0.3
+    regime, dflt, fac, l10lr, l10eps, start = _rate_setup(rng, between)
+    if kind == "cooldown" and not between and rng.random() < 0.6:  # make sure the reductions are not negligible
         l10eps = -8 if start * (1 - fac) * fac ** 3 > 1e-6 else -400
     if kind == "entries" and rng.random() < 0.7:
         regime, dflt, fac, l10lr, l10eps = "E", 1.0, 0.5, None, -8
@@ -839,7 +840,7 @@ def run(chk, cases=None):
                         "history keys are 0..n (update_for_epoch is always called with epoch=None)"]
     replaying = cases is not None
     cases = cases if cases is not None else gen_cases(chk)
-    outs, terms, plain_cache, kept = [], [], {}, []
+    outs, terms, plain_cache, kept, streams = [], [], {}, [], []
     for c in cases:
         stream = c.pop("stream", "random")
         out = run_impl(chk, c)
@@ -847,6 +848,7 @@ def run(chk, cases=None):
             chk.count("dropped: inexact factor and a rate at a print-rounding tie")
             continue
         kept.append(c)
+        streams.append(stream)
         outs.append(out)
         terms.append(model_term(c, out))
         chk.note_case(c, nontrivial(c, out), stream)
@@ -897,6 +899,11 @@ def run(chk, cases=None):
     res = coq_eval_bools(chk.workdir, IMPORTS, terms, shard=SHARD)
     bad = [i for i, ok in enumerate(res) if not ok]
     chk.extra["model_disagreements"] = len(bad)
+    if bad:
+        by = {}
+        for i in bad:
+            by[streams[i]] = by.get(streams[i], 0) + 1
+        chk.extra["model_disagreements_by_stream"] = by
     source_tie(chk, cases, outs, res)
 
     # --- the relations the property states, on the implementation alone -------------------
@@ -920,6 +927,11 @@ def run(chk, cases=None):
     spec_bad = [spec_idx[j][1] for j, ok in enumerate(sres) if not ok]
     chk.extra["spec_judged_runs"] = len(spec_terms)
     chk.extra["restart_vs_uninterrupted_differences"] = len(diffs)
+    if spec_bad:
+        by = {}
+        for i in spec_bad:
+            by[streams[i]] = by.get(streams[i], 0) + 1
+        chk.extra["rules_rejections_by_stream"] = by
 
     concrete = False
     for i in [i for i, o in enumerate(outs) if any(a != b for _, a, b in o.get("ct_later", []))][:2]:
